@@ -18,4 +18,4 @@ META = {
 
 
 def run(ctx):
-    engine.run_rules(ctx, [sd.r09_1, sd.r09_1b, sd.r09_2, sd.r09_3, sd.r09_4, sd.r09_5, sd.r09_6, sd.r09_7, sd.r09_8, sd.r09_9, sd.r09_10, sd.r04_4, sd.r04_5, sd.r04_1, sd.r04_2, sd.r04_3, sd.r04_7, sd.r04_8, sd.r04_12])
+    engine.run_rules(ctx, [sd.r09_1, sd.r09_1b, sd.r09_2, sd.r09_3, sd.r09_4, sd.r09_5, sd.r09_6, sd.r09_7, sd.r09_8, sd.r09_9, sd.r09_10, sd.r04_15, sd.r04_4, sd.r04_5, sd.r04_1, sd.r04_2, sd.r04_3, sd.r04_7, sd.r04_8, sd.r04_12])
